@@ -16,7 +16,7 @@ THEOREMS = [
     "Docstring.ensure_total", "Docstring.doc_total", "Docstring.summary_total", "Docstring.extract_total",
     "Docstring.toc_total", "Docstring.total", "Docstring.total_old_counterexample", "Docstring.toc_old_spec",
     "Docstring.base_get_summary_total",
-    "Docstring.toc_spec", "Docstring.fallback_full_text", "Docstring.isolation_source",
+    "Docstring.toc_spec", "Docstring.fallback_full_text", "Docstring.fallback_uses_source_text", "Docstring.isolation_source",
     "Docstring.parse_fallback_full_text", "Docstring.ensure_fallback_full_text",
     "Docstring.render_fallback_full_text", "Docstring.unreported_parse_error_counterexample",
     "Docstring.render_failure_reported", "Docstring.render_failure_masked_counterexample",
@@ -83,7 +83,13 @@ NAMES = ["m", "m.B", "m.B.f", "m.B.a", "m.g", "m.v", "n", "n.C", "n.C.f", "n.C.a
 PARENT = [None, 0, 1, 1, 0, 0, None, 6, 7, 7]
 INHERITED = {8: [2], 9: [3]}
 MODULE_OF = [0, 0, 0, 0, 0, 0, 6, 6, 6, 6]
-KINDS = {0: "Module", 1: "Class", 2: "Function", 3: "Attribute"}
+KINDS = {0: "Module", 1: "Class", 2: "Function", 3: "Attribute", 8: "Function inheriting the docstring of m.B.f (other module)"}
+XS = (0, 1, 2, 3, 8)
+
+
+def holder_of(x: int) -> int:
+    """the object that carries the docstring text in a single-object case"""
+    return INHERITED[x][0] if x in INHERITED else x
 
 
 class Hang(BaseException):
@@ -636,7 +642,7 @@ def ops_for(x: int, order: str, extract_first: bool) -> List[Tuple[str, int]]:
 
 def base_spec(fmt: str, pt: int, td: int, x: int, text: str) -> Dict[str, Any]:
     return {"kind": "fault", "pt": pt, "td": td, "sys": fmt, "x": x,
-            "objs": {x: {"doc": text}, BYSTANDER: {"doc": BYST_TEXT}},
+            "objs": {holder_of(x): {"doc": text}, BYSTANDER: {"doc": BYST_TEXT}},
             "pd": {}, "ty": {}, "par": {}, "plain": ("r", "s%d" % PLAIN_K, "e")}
 
 
@@ -646,7 +652,7 @@ def exhaustive_fault_cases(quick: bool):
     # A: parser x processtypes x fields x body to_stan
     for fmt in "ergnp":
         for pt in (0, 1):
-            for x in (0, 1, 2, 3):
+            for x in XS:
                 for po in PARSER_OUTCOMES:
                     returns_user = po[0] == "ret" and po[1] == 1
                     for (fs, pds, tys) in (fvs if returns_user else fvs[:1]):
@@ -661,7 +667,7 @@ def exhaustive_fault_cases(quick: bool):
     # B: to_node x summary walk x summary to_stan x toc builder x toc to_stan x toc depth
     combos = list(itertools.product((0, 1), ("r1", "xo2"), range(len(NODE_WALK)), range(len(TOCS)), (0, 1, 2)))
     for ci, (poi, bs, nw, tc, td) in enumerate(combos):
-        pairs = list(itertools.product("ergnp", (0, 1, 2, 3)))
+        pairs = list(itertools.product("ergnp", XS))
         if quick:
             pairs = [pairs[(ci * 7 + j * 5) % len(pairs)] for j in range(4)]
         for fmt, x in pairs:
@@ -831,9 +837,13 @@ def fault_oracle(ctx: Ctx, w: World, spec: Dict[str, Any], trace) -> None:
     if x is None:
         return
     # ---- single-object cases: the property's clauses one by one
-    doc = spec["objs"][x]["doc"]
-    fmt = spec_docformat(spec, x)
+    src = holder_of(x)          # the object the docstring is written on (x itself unless inherited)
+    doc = spec["objs"][src]["doc"]
+    fmt = spec_docformat(spec, src)
     out = injected_outcome(spec, fmt, x)
+    if src != x and (x in errs_now or x in reported):
+        fail("inherited:reported-against-inheriting-object", "a problem of an inherited docstring was reported against the "
+             "inheriting object instead of the object the docstring is written on")
     shown = [t for t in trace if t["op"] == "d" and t["obj"] == x and t["raised"] is None and not t["hang"]]
     pd = w.objs[x].parsed_docstring
     if out[0] == "raise":
@@ -843,13 +853,13 @@ def fault_oracle(ctx: Ctx, w: World, spec: Dict[str, Any], trace) -> None:
             if t["body"] != "pre:" + enc(doc):
                 fail("fallback:display-differs", "parser gave up but the body shown is not the whole original text")
         if out[1]:
-            if x not in errs_now or not reported.get(x):
+            if src not in errs_now or not reported.get(src):
                 fail("fallback:not-reported", "parser gave up and nothing was reported against the object")
         else:
             ctx.count("fault:parser-contract-breach-injected")
     else:
         k, errs = out[1], out[2]
-        if errs and (x not in errs_now or len([d for d in reported.get(x, []) if d.startswith("bad docstring: M")]) < len(errs)):
+        if errs and (src not in errs_now or len([d for d in reported.get(src, []) if d.startswith("bad docstring: M")]) < len(errs)):
             fail("recovered-errors:not-reported", "the parser stored %d error(s) and returned; they were not all reported against the object" % len(errs))
         if k != "plain":
             p = spec.get("pd", {}).get(k) or default_pd(k)
@@ -857,7 +867,7 @@ def fault_oracle(ctx: Ctx, w: World, spec: Dict[str, Any], trace) -> None:
                 for t in shown:
                     if t["body"] != "pre:" + enc(doc):
                         fail("render-fallback:display-differs", "to_stan raised but the body shown is not the whole original docstring")
-                if shown and x not in errs_now:
+                if shown and src not in errs_now:
                     fail("render-fallback:not-reported", "to_stan raised and the object is not among the reported objects")
             pt_applies = bool(spec["pt"]) and fmt not in "gnp"
             for t in shown:
@@ -1036,8 +1046,29 @@ def gen_unicode(rng, surrogates: bool = False) -> str:
     return "".join(out)
 
 
+EPY_WARNINGS = ["@note this field item lacks its colon", "@param", "@return something", "Heading\n=====", "Title\n====\n\nSub\n--",
+                "@see also the other thing"]
+EPY_FATALS = ["Details about it follow.\n    This continuation line is indented too far.", "Some B{unbalanced brace here.",
+              "A stray } brace.", "See L{a.b for more.", "  - item\n dedented text after the list", "Text C{code I{nested}.",
+              "1. one\n  - wrong nesting\n 2. two", "U{http://x"]
+
+
+def gen_epytext_warn_then_fatal(rng) -> str:
+    """a NON-fatal epytext warning recorded first, a FATAL structuring/colorizing error later in the same docstring"""
+    parts = [rng.choice(["Frobnicate the widget.", "Summary line.", "x"])]
+    parts += rng.sample(EPY_WARNINGS, rng.randint(1, 2))
+    parts += rng.sample(EPY_FATALS, rng.randint(1, 2))
+    if rng.random() < 0.3:
+        parts.append(rng.choice(["@param x: the x", "@return: nothing", "Last words."]))
+    return "\n\n".join(parts) + rng.choice(["", "\n"])
+
+
 # past failures, run first in every real stream (the minimal forms of the inputs behind the known findings)
 REGRESSION_DOCS = [
+    "Frobnicate the widget.\n\n@note this field item lacks its colon\n\nDetails about the frobnication follow.\n"
+    "    This continuation line is indented too far and must not be lost.\n",
+    "Run the job.\n\nPage one of the notes,\x0ccontinued after an odd character.\nPage two of the notes.",
+    "Run the job.\n\nPage one of the notes,\ufffecontinued after an odd character.\nPage two of the notes.",
     "Summary.\n @param a: x\n\n@param b: y",
     "Summary.\n @ivar a: x\n\n@ivar b: y",
     " - item \u0301\x0f\x05m\x02B\u2029\xa0\x10\x92",
@@ -1047,6 +1078,8 @@ REGRESSION_DOCS = [
 
 def gen_real_docstring(rng) -> Tuple[str, str]:
     r = rng.random()
+    if r < 0.08:
+        return "epytext-warning-then-fatal", gen_epytext_warn_then_fatal(rng)
     if r < 0.4:
         f = rng.choice(list(FRAGMENTS))
         return "fragments:" + f, gen_fragments(rng, f)
@@ -1188,7 +1221,7 @@ class Observer:
         from pydoctor.epydoc.markup.plaintext import ParsedPlaintextDocstring
         w = self.w
         o = w.objs[i]
-        self.spec["objs"][i] = {"doc": doc}
+        self.spec["objs"][holder_of(i)] = {"doc": doc}
         rec = w.records.get(i)
         if rec is None:
             return
@@ -1252,7 +1285,7 @@ def run_real_case(w: World, fmt: str, pt: int, x: int, doc: str, td: int, limit:
     """returns (request, impl line, trace, record of x); request is None when the case cannot be put to the model"""
     w.reset(fmt, pt, td, {})
     w.spec = {}
-    w.objs[x].docstring = doc
+    w.objs[holder_of(x)].docstring = doc
     w.objs[BYSTANDER].docstring = BYST_REAL
     ops = real_ops(x, order)
     outs, trace = run_ops(w, ops, stan_role=real_role(w, x), limit=limit)
@@ -1312,7 +1345,11 @@ def real_oracle(ctx: Ctx, w: World, fmt: str, pt: int, x: int, doc: str, td: int
         prev = t["nreports"]
     errs_now = {w.ids.get(n, 99) for n in w.system.parse_errors.get("docstring", ())}
     bad = [r for r in w.reports if r[2] == "docstring" and r[1].startswith("bad docstring: ")]
-    mine = [r for r in bad if r[0] == x]
+    hold = holder_of(x)     # the object the text is written on; x inherits it when h != x
+    mine = [r for r in bad if r[0] == hold]
+    if hold != x and (x in errs_now or any(r[0] == x for r in bad)):
+        fail("inherited:reported-against-inheriting-object", "a problem of an inherited docstring was reported against the inheriting "
+             "object (%s) instead of the object the docstring is written on (%s)" % (NAMES[x], NAMES[hold]))
     shown = [t for t in trace if t["op"] == "d" and t["obj"] == x and t["raised"] is None]
     pd = w.objs[x].parsed_docstring
     nerr = 0
@@ -1331,13 +1368,21 @@ def real_oracle(ctx: Ctx, w: World, fmt: str, pt: int, x: int, doc: str, td: int
                     m = PRE_RE.match(h or "")
                     if not m or htmlmod.unescape(m.group(1)) != doc:
                         fail("fallback:visible-text-differs", "the flattened fallback does not read back as the original text")
-            if x not in errs_now or not mine:
+            if hold not in errs_now or not mine:
                 fail("fallback:not-reported", "the %s parser gave up (%s) and nothing was reported against the object"
                      % (FMT_OF[fmt], type(val).__name__))
             if isinstance(val, ParseError) and not any(e is val for e in errs):
                 ctx.count("real:ParseError-raised-but-not-stored")
         else:
-            if errs and (x not in errs_now or len(mine) != len(errs)):
+            if fmt == "e" and any(e.is_fatal() for e in errs):
+                # property: "any fatal epytext markup error" makes the parser give up: plain text of the whole docstring
+                fail("epytext:fatal-error-without-fallback", "the epytext parser recorded a fatal markup error (%s) but did not give up: "
+                     "the docstring is rendered from a partial tree instead of being shown in full as plain text"
+                     % next(e.descr() for e in errs if e.is_fatal())[:60])
+                for t in shown:
+                    if t["body"] != "pre:" + enc(doc):
+                        fail("epytext:fatal-error:display-differs", "fatal epytext error but the body shown is not the whole original text")
+            if errs and (hold not in errs_now or len(mine) != len(errs)):
                 fail("recovered-errors:not-reported", "the parser stored %d error(s) and returned; %d were reported against the object"
                      % (len(errs), len(mine)))
             if not errs and (x in errs_now and not any(t["body"].startswith("pre:") and fmt != "p" for t in shown)):
@@ -1350,7 +1395,7 @@ def real_oracle(ctx: Ctx, w: World, fmt: str, pt: int, x: int, doc: str, td: int
         fresh_exc = None
         try:
             with quiet(), time_limit(20.0):
-                E.parse_docstring(w.objs[x], doc, w.objs[x]).to_stan(w.objs[x].docstring_linker)
+                E.parse_docstring(w.objs[x], doc, w.objs[hold]).to_stan(w.objs[hold].docstring_linker)
         except Hang:
             raise
         except Exception as e:
@@ -1363,8 +1408,8 @@ def real_oracle(ctx: Ctx, w: World, fmt: str, pt: int, x: int, doc: str, td: int
                      "rendering this docstring fails (%s) but format_docstring showed something else than the whole original "
                      "text in %d of %d calls (entry-point order %s): a failed to_node() leaves a half-built cached document behind"
                      % (type(fresh_exc).__name__, len(hidden), len(shown), "".join(t["op"] for t in trace if t["obj"] == x)))
-            elif x not in errs_now:
-                fail("render-fallback:not-reported", "to_stan failed and the object is not among the reported objects")
+            elif hold not in errs_now:
+                fail("render-fallback:not-reported", "to_stan failed and the object the docstring is written on is not among the reported objects")
     firsts: Dict[str, str] = {}
     for t in trace:
         if t["obj"] == BYSTANDER:
@@ -1374,7 +1419,7 @@ def real_oracle(ctx: Ctx, w: World, fmt: str, pt: int, x: int, doc: str, td: int
     if BYSTANDER in errs_now or any(r[0] == BYSTANDER for r in bad):
         fail("isolation:bystander-reported", "a healthy object was reported")
     for r in bad:
-        if r[0] not in (x, BYSTANDER):
+        if r[0] not in (x, hold, BYSTANDER):
             fail("isolation:third-object-reported", "a report was filed against an object that was not processed")
     return nerr > 0
 
@@ -1471,15 +1516,19 @@ def run(ctx: Ctx) -> None:
     ctx.compare("fault-injection~Docstring.run", reqs, impls, pay)
     ctx.exhaustive = True
     # ---- (b) real parsers
-    nstr = 350 if ctx.quick else 1000
+    nstr = 350 if ctx.quick else 850
     limit = 20.0
     reqs, impls, pay = [], [], []
     sreqs, simpls, spay = [], [], []
     with instrument(w), record_patches(w):
         for n in range(nstr):
             stream, doc = ("regression", REGRESSION_DOCS[n]) if n < len(REGRESSION_DOCS) else gen_real_docstring(ctx.rng)
-            combos = [(f, (n + fi) % 2, (n + fi) % 4) for fi, f in enumerate("ergnp")] if ctx.quick else \
-                     [(f, pt, x) for f in "ergnp" for pt in (0, 1) for x in (0, 1, 2, 3)]
+            if n < len(REGRESSION_DOCS):   # past failures: own and inherited docstring under every format
+                combos = [(f, (n + fi) % 2, x) for fi, f in enumerate("ergnp") for x in (2, 8)]
+            elif ctx.quick:
+                combos = [(f, (n + fi) % 2, XS[(n + fi) % 5]) for fi, f in enumerate("ergnp")]
+            else:
+                combos = [(f, pt, x) for f in "ergnp" for pt in (0, 1) for x in XS]
             for ci, (fmt, pt, x) in enumerate(combos):
                 td = [0, 1, 3][(n + ci) % 3]
                 try:
